@@ -66,6 +66,12 @@ def gen_chain(rng):
     owners = ["example.", "a.example.", "b.example.", "www.a.example.", "sub.example.", "x.sub.example.", "*.w.example."]
 
     def rr():
+        if rng.random() < 0.12:
+            # a signed alias: the CNAME and the signature covering it live together at one name (and nothing else does)
+            o = rng.choice(("alias.example.", "alias2.sub.example."))
+            if rng.random() < 0.5:
+                return (o, "CNAME", ttl_for(o, "CNAME"), "www.a.example.")
+            return (o, "RRSIG", ttl_for(o, "RRSIG"), f"CNAME 8 2 300 20300101000000 20200101000000 {rng.randrange(1, 4)} example. q83v")
         o = rng.choice(owners)
         t = rng.choice(("A", "A", "TXT", "MX", "AAAA", "RRSIG", "SRV", "NS", "CNAME-LIKE"))
         if t == "NS" and o == "example.":
@@ -260,9 +266,25 @@ def interpret(z0, s0, kind, is_udp, msgs):
 # ------------------------------------------------------------------------------------------ library side
 
 
-def build_zone(factory, relativize, recs, serial):
-    lines = [f"{o} {ttl} IN {t} {text}" for o, t, ttl, text in [soa(serial)] + sorted(recs)]
-    return dns.zone.from_text("\n".join(lines) + "\n", origin=ORIGIN, relativize=relativize, zone_factory=factory, check_origin=False)
+def build_zone(factory, relativize, recs, serial, rng=None):
+    """the zone before the transfer.  With rng, a versioned zone is sometimes built in two commits with older versions
+    retained (the last record arrives in a second transaction): its content is the same, its history is not"""
+    recs = sorted(recs)
+    late = None
+    if rng is not None and factory is not dns.zone.Zone and recs and rng.random() < 0.4:
+        cand = [r for r in recs if r[1] not in ("NS", "SOA")]
+        if cand:
+            late = rng.choice(cand)
+            recs = [r for r in recs if r is not late]
+    lines = [f"{o} {ttl} IN {t} {text}" for o, t, ttl, text in [soa(serial)] + recs]
+    z = dns.zone.from_text("\n".join(lines) + "\n", origin=ORIGIN, relativize=relativize, zone_factory=factory, check_origin=False)
+    if late is not None:
+        z.set_max_versions(rng.choice((2, 4, None)))
+        o, t, ttl, text = late
+        with z.writer() as txn:
+            oname = ORIGIN if isinstance(ORIGIN, dns.name.Name) else dns.name.from_text(ORIGIN)
+            txn.add(dns.name.from_text(o), ttl, dns.rdata.from_text("IN", t, text, origin=oname, relativize=relativize))
+    return z
 
 
 def zone_fp(z):
@@ -320,7 +342,7 @@ def run_transfer(ctx, zname, factory, relativize, z0, s0, kind, is_udp, msgs, fa
     """returns nothing; reports"""
     incremental = kind != "axfr"
     rdtype = dns.rdatatype.IXFR if incremental else dns.rdatatype.AXFR
-    z = build_zone(factory, relativize, z0, s0)
+    z = build_zone(factory, relativize, z0, s0, rng=ctx.rng)
     before = zone_fp(z)
     ref = interpret(z0, s0, kind, is_udp, msgs)
     tag = f"{zname}:{'rel' if relativize else 'abs'}"
@@ -434,7 +456,7 @@ def faults_for(rng, msgs, serials, base_serial):
         c = clone()
         c[mi]["records"][ri] = ("other.example.", r[1], ttl_for("other.example.", r[1]) if r[1] != "SOA" else r[2], r[3])
         yield ("owner-other-name", c, pclass(i))
-        if r[1] != "TXT":
+        if r[1] != "TXT" and not r[0].startswith("alias"):  # (ordinary data next to a CNAME is the node rule's business: C09 / C10)
             c = clone()
             c[mi]["records"][ri] = (r[0], "TXT", ttl_for(r[0], "TXT"), '"corrupted"')
             yield ("type-corrupted", c, pclass(i))
@@ -498,7 +520,7 @@ def run_via_query(ctx, rng, zname, factory, relativize, z0, s0, kind, msgs, sign
     from vlib.mon.hooks import swap_attr
 
     incremental = kind != "axfr"
-    z = build_zone(factory, relativize, z0, s0)
+    z = build_zone(factory, relativize, z0, s0, rng=ctx.rng)
     before = zone_fp(z)
     ref = interpret(z0, s0, kind, False, msgs)
     key = dns.tsig.Key("xfr-key.example.", b"0123456789abcdef0123456789abcdef") if sign else None
@@ -687,7 +709,7 @@ def run_via_query_udp(ctx, rng, zname, factory, relativize, z0, s0, msgs, tcp_re
     import dns.query
     from vlib.mon.hooks import swap_attr
 
-    z = build_zone(factory, relativize, z0, s0)
+    z = build_zone(factory, relativize, z0, s0, rng=ctx.rng)
     before = zone_fp(z)
     ref_udp = interpret(z0, s0, "ixfr", True, msgs)
     use_tcp = ref_udp[0] == "reject" and ref_udp[1] == "use tcp"
